@@ -561,7 +561,10 @@ class Forcing(BaseForce):
             if hasattr(nc.variables[key], "scale_factor"):
                 self.scaled[key] = True
                 self.scale_factor[key] = np.float32(nc.variables[key].scale_factor)
-                self.add_offset[key] = np.float32(nc.variables[key].add_offset)
+                # A missing add_offset attribute means no offset (CF conventions)
+                self.add_offset[key] = np.float32(
+                    getattr(nc.variables[key], "add_offset", 0.0)
+                )
             else:
                 self.scaled[key] = False
 
@@ -588,12 +591,10 @@ class Forcing(BaseForce):
         V = self._nc.variables["v"][frame, :, self.grid.Jv, self.grid.Iv]
 
         # Scale if needed
-        # Assume offset = 0 for velocity
         if self.scaled["u"]:
-            U = self.scale_factor["u"] * U
-            V = self.scale_factor["v"] * V
-            # U = self.add_offset['u'] + self.scale_factor['u']*U
-            # V = self.add_offset['v'] + self.scale_factor['v']*V
+            U = self.add_offset["u"] + self.scale_factor["u"] * U
+        if self.scaled["v"]:
+            V = self.add_offset["v"] + self.scale_factor["v"] * V
 
         # If necessary put U,V = zero on land and land boundaries
         # Stay as float32
